@@ -42,7 +42,7 @@ impl Check for C02 {
         }
     }
     fn expect_reach(&self, _tier: Tier) -> Vec<String> {
-        vec!["ok:SlicedPacket::from_ethernet".into(), "err:SlicedPacket::from_ethernet".into(), "ok:LaxSlicedPacket::from_ip".into(), "ok:TcpOptionsIterator::from_slice".into(), "err:Ipv6ExtensionsSlice::from_slice".into()]
+        vec!["ok:SlicedPacket::from_ethernet".into(), "err:SlicedPacket::from_ethernet".into(), "ok:LaxSlicedPacket::from_ip".into(), "ok:TcpSlice::from_slice".into(), "err:Ipv6ExtensionsSlice::from_slice".into()]
     }
     fn run_unit(&self, tier: Tier, u: u64, ctx: &mut Ctx) {
         sweep::run_unit(tier, u, ctx, &|door, bytes, _shape, case| {
